@@ -70,8 +70,9 @@ MANIFEST = dict(
          'when a writer raises (generated flag bsp_save_restores_on_abort, obligation aborted_save_puts_the_popped_view_back): the '
          'clause matters only when the save raises (same flag, same result when it completes), and with it, after ANY history and a '
          'save that may raise half-way, every view still denotes what the file held and unowned lumps are untouched '
-         '(c10_aborted_save_keeps_content); without it a closed history loses a lump on the second save (the pinned tree before fix '
-         'c8f05ec).',
+         '(c10_aborted_save_keeps_content), and any further looks followed by a save that completes are lossless with respect to the '
+         'original file (c10_retry_after_aborted_save_lossless); without it a closed history loses a lump on the second save (the pinned '
+         'tree before fix c8f05ec).',
     note='Assumed in the theorems (visible hypotheses): each lump writer inverts its reader on the file\'s lumps (codec_ok, '
          'wr_len_ok: property C11); decompress (compress d) = d (CPython lzma). The container theorem is about the model '
          'Fmt/BspContainer.v, tied to BSP.read/BSP.save by byte-exact correspondence on random containers (not by a translator of '
@@ -93,8 +94,7 @@ MANIFEST = dict(
          'mutating method calls, followed through BSP methods; changes made inside other classes\' methods are not seen) and '
          'the check pins the list; for (bmodels, ents) the graph hypotheses of the theorem and "nothing that can raise follows '
          'the first change" (a syntactic tail condition on the reader) are obligations, "the writer undoes it" is searched '
-         '(malformed inputs bmodel_ref and seven PHYSCOLLIDE blocks the physics half of the reader rejects, oracle); "a later save after an '
-         'aborted one that COMPLETES is lossless" is searched only (the theorem stops at what the object denotes after the aborted save); '
+         '(malformed inputs bmodel_ref and seven PHYSCOLLIDE blocks the physics half of the reader rejects, oracle); '
          'the translator reads only the shape of the handler around the writer call (bare / Exception / BaseException, store of the popped '
          'name under the loop variable, re-raise, every use of the writer result inside the try); the texinfo/hammer_id '
          'fields the face readers set on the shared orig_faces objects are searched only. Not modelled, '
@@ -1169,6 +1169,8 @@ def run(ck: Ck) -> None:
             'shape_ok_bsp_shape': 'shape_ok bsp_shape',
             'get_clears_raw_data_only_after_the_reader_has_finished': 'negb (sh_early_main bsp_shape) && negb (sh_early_extra bsp_shape)',
             'get_caches_every_parsed_value': 'negb bsp_get_parse_uncached',
+            # the model's look caches and clears nothing when the reader raises (getf: None => (false, snd r))
+            'get_caches_and_clears_nothing_when_the_reader_raises': 'negb bsp_get_stores_on_raising_path',
             'readers_never_store_lump_data': 'match bsp_reader_stores with nil => true | _ => false end',
             'save_pops_views_during_the_walk_of_the_rebuild_order': 'negb (sh_snapshot bsp_shape)',
             # hypothesis writers_can_look of c10_save_lossless (save completes): implied by wdeps being within rdeps
@@ -1196,6 +1198,10 @@ def run(ck: Ck) -> None:
             # what BSP.save leaves behind when a writer raises (theorem c10_aborted_save_keeps_content is about save_a true; without
             # the except clause the popped view is dropped although its lumps were cleared: c10_aborted_save_drops_view_refuted)
             'aborted_save_puts_the_popped_view_back': 'bsp_save_restores_on_abort',
+            # a loop that forgets the cached value only after the lumps were rebuilt equals the modelled pop-first loop only if no
+            # writer looks at its own view (it would see the cached value instead of the cleared lump)
+            'late_pop_only_where_no_writer_looks_at_its_own_view':
+                f'negb bsp_save_pops_late || forallb (fun i => negb (mem i (v_wdeps (decl bsp_graph i)))) (seq 0 ({n}))',
             'readers_only_read_the_views_they_look_at': 'forallb (fun u => Nat.eqb (snd u) 0) bsp_reader_uses',
             'writers_only_read_or_append_to_the_views_they_look_at': 'forallb (fun u => Nat.leb (snd u) 1) bsp_writer_uses',
         })
@@ -1490,6 +1496,7 @@ def run(ck: Ck) -> None:
     if kinds & {'view-content-changed', 'cache-not-empty-after-save', 'raw-changed', 'save-raises', 'look-raises',
                 'failed-look-changed-lump', 'raw-changed-unparsable'}:
         for nm in ('shape_ok_bsp_shape', 'get_clears_raw_data_only_after_the_reader_has_finished', 'get_caches_every_parsed_value',
+                   'get_caches_and_clears_nothing_when_the_reader_raises',
                    'readers_never_store_lump_data',
                    'save_pops_views_during_the_walk_of_the_rebuild_order', 'writers_look_only_at_views_their_readers_look_at',
                    'readers_only_read_the_views_they_look_at', 'writers_only_read_or_append_to_the_views_they_look_at',
